@@ -6,6 +6,9 @@ U1S = ("u1_cache_reader", {"profile": "safety"})
 U2F = ("u2_mapper_reader", {"profile": "functional"})
 U2S = ("u2_mapper_reader", {"profile": "safety"})
 
+U10M = ("u10_typed_trace", {"which": "mapper"})
+U10C = ("u10_typed_trace", {"which": "cache"})
+
 BUILDERS_ASSUMED = ("ProguardMapper::create_proguard_mapper and the record-collection loop of ProguardCache::write "
                     "(HashMap/BTreeMap entry API, Peekable<FilterMap<..>>, HashSet) are outside both verifiers' reach: that they "
                     "store, per (class, obfuscated method), the method records in file order is ASSUMED")
@@ -57,6 +60,19 @@ PROPS = {
         "assumed": ["'last class line wins' is a property of HashMap::insert / BTreeMap::insert inside the builders (assumed)",
                     "cache: StringTable interning (equal strings <=> equal offsets among a class's members) is part of the assumed representation invariant"],
         "design_ref": "DESIGN.md 5/C04",
+    },
+    "C08": {
+        "title": "Typed stack-trace remapping keeps every element",
+        "units": [U10M, U10C],
+        "kani": [],
+        "technique": "Verus contract on the whole recursive remap_stacktrace_typed (both copies): exception kept, remapped-or-same, cause depth preserved",
+        "level_text": "Proof (with recursion, decreases on cause depth) that typed remapping never drops the exception of a trace or of any "
+                      "cause, that each throwable is the remapped one or the original, and that the cause-chain depth is preserved. The frames "
+                      "fold (Peekable + Vec::extend closure) is behind an assumed shim; agreement of printing with the text API is not decided.",
+        "assumed": ["the frames fold `trace.frames.iter().fold(..)` keeps every frame (contract frames_kept ASSUMED: closure over Peekable<RemappedFrameIter> and Vec::extend is outside Verus' reach)",
+                    "'printing the typed result equals the text API output' is not decided (Display / fmt)",
+                    "#[derive(Clone)] on Throwable is a field-wise copy"],
+        "design_ref": "DESIGN.md 5/C08",
     },
     "C12": {
         "title": "No accepted buffer can make a query panic, overflow or read outside",
